@@ -193,6 +193,23 @@ CHECKS = {
              "exception other than ValidateTransactionError during a head change propagates; nothing is claimed for "
              "that path.",
         technique=PROOF_TECH + "; data-structure invariant over its writers + writer scan"),
+    'C18': dict(
+        category='proof', design_ref='6/C18',
+        text="Proved from source: validate_block_in_coinstate returns normally for a block at a height h <= 163000 that is "
+             "one of the 327 pinned checkpoint heights ONLY IF block.hash() equals the pinned checkpoint for h (post-"
+             "condition over all blocks and chain states; the table lookup and the hex decoding are executed symbolically "
+             "over the real table). Lemma C18.table: no pinned entry is changed or removed, nothing is inserted below the "
+             "pinned maximum, the horizon constant is the highest checkpointed height and is not lowered, entry 0 is the id "
+             "recomputed from the built-in genesis bytes. Evaluation on recorded data (exhaustive over it): the genesis "
+             "block and the 5 recorded real blocks decode, re-encode byte-identically, keep their recorded ids and pass "
+             "FULL validation on top of each other with the real scrypt (horizon lifted in the checking process only); "
+             "every checkpointed height is probed on the real validator with the right id and two wrong ids.",
+        note="The checkpoint table is consensus data pinned in contracts/checkpoints_pinned.json (entries above the pinned "
+             "maximum are reported as not verifiable, not as violations). Only 5 recorded blocks ship with the repository; "
+             "'the real network's blocks stay valid' is decided for those and the genesis block, not for the rest of the "
+             "real chain. Below the horizon the node skips in-chain validation by design; that is not part of the claim.",
+        technique=PROOF_TECH + "; branch post-condition over a constant table + run-time evaluation of the real validators "
+                  "on the recorded blocks with real scrypt"),
     'C20': dict(
         category='proof', design_ref='6/C20',
         text="Exceptional post-condition, proved from source: no exception of any class escapes "
